@@ -205,12 +205,19 @@ Validate(r, pass) ==
     /\ run' = [run EXCEPT ![r].pc = IF pass THEN "accounts" ELSE "ret"]
     /\ UNCHANGED <<attested, signReq, submitted, horizon>>
 
-\* Env_AccountsSubset: the account manager answers with accounts of requested validators only
-Accounts(r, A) ==
+\* the attester takes whatever map ValidatingAccountsForEpochByIndex returns (it does not filter it)
+AccountsAny(r, A) ==
     /\ run[r].pc = "accounts"
-    /\ A \subseteq run[r].claimed
     /\ run' = [run EXCEPT ![r].pc = "sign", ![r].accts = A]
     /\ UNCHANGED <<attested, signReq, submitted, horizon>>
+
+\* Env_AccountsSubset: the account manager answers with accounts of requested validators only.  An
+\* ASSUMPTION while the account manager is outside the specification (scripted fake); AttesterAM.tla puts
+\* the account manager (and the validators manager behind it) INSIDE: there the answer is an action of
+\* that component (its ByIndex contract), and a design that breaks it is judged by the invariants below.
+Accounts(r, A) ==
+    /\ A \subseteq run[r].claimed
+    /\ AccountsAny(r, A)
 
 AccountsErr(r) ==
     /\ run[r].pc = "accounts"
@@ -224,12 +231,15 @@ AccountsErr(r) ==
 (* Every POSITION is a signature asked for: the history keeps, per validator, how many          *)
 (* positions of the call name it (mult).  Nothing here keeps a validator from being named       *)
 (* twice: that is what NoDoubleSign judges, from the call as the signer received it.            *)
-SignCallSeq(r, rs, sd) ==
+\* ClaimedOnly: the request names validators this run claimed only (a C01 obligation on the service as long as
+\* the account manager is trusted to answer for requested validators; AttesterAM.tla switches the guard off and
+\* states it as the invariant SignOnlyClaimed, so that a design that breaks it is REJECTED, not blocked)
+SignCallSeqG(r, rs, sd, ClaimedOnly) ==
     LET rr == run[r]
         req == Range(rs) IN
     /\ rr.pc = "sign"
     /\ ReqVals(req) \subseteq rr.accts
-    /\ Strict01 => /\ ReqVals(req) \subseteq rr.claimed
+    /\ Strict01 => /\ ClaimedOnly => ReqVals(req) \subseteq rr.claimed
                    /\ DataOK(rr.duty, sd)
     /\ Strict04 => /\ ReqOK(rr, req)
                    /\ Len(rs) = Cardinality(req)
@@ -238,6 +248,8 @@ SignCallSeq(r, rs, sd) ==
                                  mult |-> [v \in ReqVals(req) |-> Mult(rs, v)], data |-> sd]}
     /\ run' = [run EXCEPT ![r].pc = "signing", ![r].req = req, ![r].sd = sd]
     /\ UNCHANGED <<attested, submitted, horizon>>
+
+SignCallSeq(r, rs, sd) == SignCallSeqG(r, rs, sd, TRUE)
 
 \* ... for a set of pairs (each pair one position)
 SignCall(r, req, sd) == SignCallSeq(r, SeqOfSet(req), sd)
